@@ -3,5 +3,6 @@ package main
 import (
 	_ "verif/props/c11"
 	_ "verif/props/c15"
+	_ "verif/props/c16"
 	_ "verif/props/c37"
 )
